@@ -258,8 +258,17 @@ def check_replace_calls(ctx):
     f = repo.func(f"{GATES}:CustomGateMatrixFactory.__call__")
     ctx.analysed(f)
     va = f.node.args.vararg.arg if f.node.args.vararg else None
-    ok = any(isinstance(c, ast.Call) and isinstance(c.func, ast.Attribute) and c.func.attr == "subs" and norm(c.func.value) == "self.matrix" and isinstance(c.args[0], ast.DictComp) and norm(c.args[0].generators[0].iter) == f"zip(self.params_ordering, {va})" and norm(c.args[0].key) == norm(c.args[0].generators[0].target.elts[0]) and norm(c.args[0].value) == norm(c.args[0].generators[0].target.elts[1]) for c in body_walk(f.node))
+    ok = any(isinstance(c, ast.Call) and isinstance(c.func, ast.Attribute) and c.func.attr in ("subs", "xreplace") and norm(c.func.value) == "self.matrix" and isinstance(c.args[0], ast.DictComp) and norm(c.args[0].generators[0].iter) == f"zip(self.params_ordering, {va})" and norm(c.args[0].key) == norm(c.args[0].generators[0].target.elts[0]) and norm(c.args[0].value) == norm(c.args[0].generators[0].target.elts[1]) for c in body_walk(f.node))
     ctx.check(ok, R5, f.key, "matrix.subs({symbol_i: argument_i}) by position", "the custom-gate factory does not substitute the i-th argument for the i-th declared parameter symbol", f)
+    # the arguments of an instance may themselves be expressions over the definition's symbols
+    # (d(b, a), d(a + b, a)): replacing one symbol after the other lets an earlier replacement be hit by a
+    # later one, so the substitution must be simultaneous
+    subs_calls = [c for c in body_walk(f.node) if isinstance(c, ast.Call) and isinstance(c.func, ast.Attribute) and c.func.attr in ("subs", "xreplace") and norm(c.func.value) == "self.matrix"]
+    if subs_calls:
+        c = subs_calls[0]
+        sim = kwarg(c, "simultaneous")
+        simultaneous = c.func.attr == "xreplace" or (sim is not None and isinstance(sim, ast.Constant) and sim.value is True)
+        ctx.check(simultaneous, R5, f.key + ":simultaneous", "all parameter symbols are replaced simultaneously", f"{short(c)} replaces the definition's symbols one after the other (sympy's subs is sequential unless simultaneous=True): an instance whose arguments mention the definition's own symbols, e.g. d(b, a), gets the matrix M(a, a) instead of M(b, a), so evaluating symbolically and substituting values afterwards differs from binding first", f"{f.module.relpath}:{c.lineno}")
     mf = repo.func(f"{GATES}:MatrixFactoryGate.matrix")
     r = returned_exprs(mf.node)
     ctx.check(len(r) == 1 and norm(r[0]) == "self.matrix_factory(*self.params)", R5, mf.key, "matrix = factory(*params)", f"MatrixFactoryGate.matrix returns {short(r[0]) if r else None}, not the factory applied to the bound params in order", mf)
@@ -302,4 +311,4 @@ def run(ctx):
     ctx.floor("C06-D2", 14)
     ctx.floor("C06-D3", 4)
     ctx.floor("C06-D4", 12)
-    ctx.floor("C06-D5", 3)
+    ctx.floor("C06-D5", 4)
